@@ -12,6 +12,8 @@ carried only for reporting).
 from __future__ import annotations
 
 import ast
+import os
+import sys
 from dataclasses import dataclass, field
 from fractions import Fraction
 
@@ -225,6 +227,54 @@ def obj_init(v: "P"):
     return a[3] if a and a[0] == "obj" else v
 
 
+ALL_EVS: list = []           # every function-level evaluation of this process (sa/rules/exits.py)
+RETURN_AUDIT: list = []      # (module name, function name, line of the unread exit, its value, its guards, rules file:line of the reader)
+
+
+class Returns(list):
+    """The return events of one evaluation.
+
+    A rule that reads 'the' value a function returns by a single index (``ev.returns[-1]``) has looked at one exit.  When the function has
+    exits with other values (a shortcut added in front of the computation the rule knows), the access is recorded in RETURN_AUDIT and
+    sa/rules/exits.py turns every exit that nobody read into an obligation.  ``pick(i)`` is the access for rules that deal with the other
+    exits themselves (they iterate, or the function is a search with several results by design)."""
+    owner = None
+    modname = ""
+    touched = ""          # how rules read the list: 'index', 'iter', 'pick' (concatenated)
+
+    @staticmethod
+    def _by_rule():
+        """is the reader a property rule (sa/rules/cNN.py)?  Generic passes (effect summaries, cache rules) walk every method's exits for
+        their own purposes; that is not a rule reading the value the function returns."""
+        f = sys._getframe(2)
+        base = os.path.basename(f.f_code.co_filename)
+        return len(base) == 6 and base[0] == "c" and base[1:3].isdigit()
+
+    def pick(self, i):
+        self.touched += "pick "
+        return list.__getitem__(self, i)
+
+    def __iter__(self):
+        if self._by_rule():
+            self.touched += "iter "
+        return list.__iter__(self)
+
+    def __getitem__(self, i):
+        if self._by_rule():
+            self.touched += "index " if isinstance(i, int) else "iter "
+        if isinstance(i, int) and len(self) > 1:
+            chosen = list.__getitem__(self, i)
+            ck = chosen.value.key() if chosen.value is not None else "None"
+            others = [e for e in self if e is not chosen and (e.value.key() if e.value is not None else "None") != ck]
+            if others:
+                import traceback
+                fr = [f for f in traceback.extract_stack(limit=8) if "/rules/" in f.filename and not f.filename.endswith("exits.py")]
+                where = f"{fr[-1].filename.split('/')[-1]}:{fr[-1].lineno}" if fr else "?"
+                for e in others:
+                    RETURN_AUDIT.append((self.modname, getattr(self.owner, "name", "?"), e, chosen, where))
+        return list.__getitem__(self, i)
+
+
 class Ev:
     """Evaluate one function (or a list of statements)."""
 
@@ -245,7 +295,11 @@ class Ev:
         self.loop_counter = 0
         self.comp_counter = 0
         self.all_loops: list[LoopInfo] = []
-        self.returns: list[Event] = []
+        self.returns: list[Event] = Returns()
+        self.returns.owner = func
+        self.returns.modname = getattr(self.mod, 'modname', '') if mod is not None else ''
+        if isinstance(func, (ast.FunctionDef, ast.AsyncFunctionDef)):
+            ALL_EVS.append(self)
         self.ctypes = ctypes or {}
         self.fwd: dict = {}                # store-to-load forwarding for simple array cells: target key -> (base key, value)
         self._lambdas = {}
